@@ -446,7 +446,7 @@ macro_rules! achk {
 
 /// Operator forms guaranteed by `group::Group` / `group::Curve`, equality,
 /// selection, summation, batch normalisation.
-pub fn ops_generic<F: Fam>(c: &Ctx<F>) -> Result<(), Failure> {
+pub fn ops_generic<F: Fam>(c: &Ctx<F>, computed_identity_in_batch: bool) -> Result<(), Failure> {
     let m = F::model();
     let (p, q, p2, pa, qa) = (c.p, c.q, c.p2, c.pa, c.qa);
     let (mp, mq) = (&c.mp, &c.mq);
@@ -523,8 +523,15 @@ pub fn ops_generic<F: Fam>(c: &Ctx<F>) -> Result<(), Failure> {
     gchk!(F, "sum:owned", [p, q, p2].into_iter().sum::<F::G>(), s3.clone());
     gchk!(F, "sum:empty", Vec::<F::G>::new().into_iter().sum::<F::G>(), id.clone());
     // batch normalisation, identities (plain and computed) included
-    let v = [p, q, F::G::identity(), p2, p - p2, p + q, q];
+    let mut v = [p, q, F::G::identity(), p2, p - p2, p + q, q];
     let want = [mp.clone(), mq.clone(), id.clone(), mp.clone(), id.clone(), add.clone(), mq.clone()];
+    if !computed_identity_in_batch {
+        for i in 0..7 {
+            if m.is_identity(&want[i]) {
+                v[i] = F::G::identity();
+            }
+        }
+    }
     let mut out = [F::A::default(); 7];
     vpcore::catch(|| F::G::batch_normalize(&v, &mut out))
         .map_err(|e| Failure::new(format!("{}:batch_normalize:panic", F::GN), format!("batch_normalize panicked: {e}; P={mp:?} Q={mq:?}")))?;
@@ -623,6 +630,13 @@ pub struct Codec<F: Fam> {
     /// (signature `<name>:panic`); the exploring sub-checks count it as a
     /// rejection so that they keep running
     pub tolerate_panic: bool,
+    /// inputs on which this decoder has a recorded defect that a dedicated
+    /// sub-check reports; the exploring sub-checks skip them
+    pub exclude: Option<fn(&[u8]) -> bool>,
+    /// `subgroup` is promised but the missing check is a recorded defect that
+    /// a dedicated sub-check reports: accept either outcome on points outside
+    /// the subgroup
+    pub lenient_subgroup: bool,
 }
 
 impl<F: Fam> Codec<F> {
@@ -639,6 +653,8 @@ impl<F: Fam> Codec<F> {
             dec_unchecked: self.dec_unchecked,
             subgroup: self.subgroup,
             tolerate_panic: false,
+            exclude: None,
+            lenient_subgroup: false,
         }
     }
 }
@@ -710,7 +726,7 @@ pub fn decode_oracle<F: Fam>(cd: &Codec<F>, bytes: &[u8], what: &str, known: Opt
     ensure!(m.on_curve(&pt), format!("{}:off-curve", cd.name), "{} accepted {what} {hexb} and returned {pt:?}, which is not on the curve", cd.name);
     let re = (cd.enc)(&a);
     ensure!(re == bytes, format!("{}:noncanonical", cd.name), "{} accepted {what} {hexb} (point {pt:?}) whose canonical encoding is {}", cd.name, hex::encode(&re));
-    if cd.subgroup {
+    if cd.subgroup && !cd.lenient_subgroup {
         let insub = match known {
             Some((k, b)) if *k == pt => b,
             _ => in_subgroup::<F>(&pt),
@@ -723,10 +739,11 @@ pub fn decode_oracle<F: Fam>(cd: &Codec<F>, bytes: &[u8], what: &str, known: Opt
 pub fn enc_check<F: Fam>(codecs: &[Codec<F>], c: &EncCase) -> CaseResult {
     let r = resolve::<F>(&c.p)?;
     let mut rng = SplitMix(c.aux);
-    let mut v = Verdict::of(!matches!(c.m, Mutn::Valid) || !matches!(c.p, PSpec::RandMul(_)), F::NAME).with(format!("P:{}", r.class));
+    let mut v = Verdict::of(!matches!(c.m, Mutn::Valid | Mutn::AddP(_)) || !matches!(c.p, PSpec::RandMul(_)), F::NAME).with(format!("P:{}", r.class));
     let mut accepted = 0;
     let mut rejected = 0;
     let mut insub_cache: Option<bool> = None;
+    let mut fitted = false;
     for cd in codecs {
         let valid = vpcore::catch(|| (cd.enc)(&r.a))
             .map_err(|p| Failure::new(format!("{}:encode-panic", cd.name), format!("encoder panicked on {:?}: {p}", r.m)))?;
@@ -751,7 +768,10 @@ pub fn enc_check<F: Fam>(codecs: &[Codec<F>], c: &EncCase) -> CaseResult {
                 (b, "encoding with last byte replaced")
             }
             Mutn::AddP(slot) => match add_p(cd, &valid, *slot as usize) {
-                Some(b) => (b, "encoding with coordinate + p"),
+                Some(b) => {
+                    fitted = true;
+                    (b, "encoding with coordinate + p")
+                }
                 None => continue,
             },
             Mutn::Random => (rng.bytes(cd.len), "random bytes"),
@@ -763,6 +783,10 @@ pub fn enc_check<F: Fam>(codecs: &[Codec<F>], c: &EncCase) -> CaseResult {
                 (b, "encoding with randomised second half")
             }
         };
+        if cd.exclude.map(|f| f(&bytes)).unwrap_or(false) {
+            v = v.with(format!("{}: input class reported by a dedicated sub-check", cd.name));
+            continue;
+        }
         if bytes == valid {
             // must-accept direction (unless the point is outside a promised subgroup)
             let insub = *insub_cache.get_or_insert_with(|| r.in_sub());
@@ -780,6 +804,12 @@ pub fn enc_check<F: Fam>(codecs: &[Codec<F>], c: &EncCase) -> CaseResult {
                     ensure!(gu.as_ref() == Some(&r.m), format!("{}:unchecked-mismatch", cd.name), "unchecked counterpart of {} on valid {} returned {gu:?}, expected {:?}", cd.name, hex::encode(&bytes), r.m);
                 }
                 accepted += 1;
+            } else if cd.lenient_subgroup {
+                if got.is_some() {
+                    accepted += 1;
+                } else {
+                    rejected += 1;
+                }
             } else {
                 ensure!(got.is_none(), format!("{}:non-subgroup", cd.name), "{} accepted the encoding of {:?} (outside the subgroup)", cd.name, r.m);
                 rejected += 1;
@@ -803,11 +833,15 @@ pub fn enc_check<F: Fam>(codecs: &[Codec<F>], c: &EncCase) -> CaseResult {
         Mutn::Flip(_) => "2-bit flip",
         Mutn::FirstByte(_) => "first byte",
         Mutn::LastByte(_) => "last byte",
-        Mutn::AddP(_) => "coordinate+p",
+        Mutn::AddP(_) if fitted => "coordinate+p",
+        Mutn::AddP(_) => "coordinate+p does not fit",
         Mutn::Random => "random bytes",
         Mutn::TailNoise => "second half randomised",
     };
     v = v.with(mc);
+    if fitted {
+        v.nontrivial = true;
+    }
     if accepted > 0 && !matches!(c.m, Mutn::Valid) {
         v = v.with(format!("{mc}: some decoder accepted"));
     }
